@@ -10,6 +10,8 @@
 //         V i j   if (IsValidOwner(or_i, or_j)) or_i->owner = or_j                (CheckSplitOwner's guarded assignment)
 //         A i j   or_i->splits += or_j          M i j   MoveSplits(or_i, or_j)
 //         G i     query GetRealOutRec(or_i)
+//         K i j   CheckSplitOwner(or_i, or_j->splits)   (only meant for states in which every OutRec the search can reach
+//                 has no points: no geometric test is evaluated; used to replay the witness of the refuted termination theorem)
 //       -> after every op "| <answer> : owner_0 owner_1 ... ; splits_0 , splits_1 , ..."  (-1 = nullptr; answer: G idx, V 0/1, else -)
 //   TREE ct fr pc rs <pathsS> <pathsO> <pathsC>
 //       ExecuteInternal(ct, fr, true); CheckBounds forced twice on every closed OutRec (so that every OutRec either has
@@ -100,6 +102,7 @@ int main() {
         else if (op == "A") { OutRec* a = R(t.i64()); OutRec* b = R(t.i64()); if (!a->splits) a->splits = new OutRecList(); a->splits->emplace_back(b); }
         else if (op == "M") { OutRec* a = R(t.i64()); OutRec* b = R(t.i64()); MoveSplits(a, b); }
         else if (op == "G") { OutRec* g = GetRealOutRec(R(t.i64())); ans = g ? std::to_string(g->idx) : "-1"; }
+        else if (op == "K") { OutRec* a = R(t.i64()); OutRec* b = R(t.i64()); bool r = b->splits && c.CheckSplitOwner(a, b->splits); ans = r ? "1" : "0"; }
         else throw std::runtime_error("bad op " + op);
         put_state(os, c, ans);
       }
